@@ -95,6 +95,11 @@ structure Resp where
   ns2 : List Nat
   extra2 : List Nat
   opt : Option Opt
+  /-- `Msg.Rcode >> 4`: `Msg.Pack` writes it into the extended-rcode byte of the OPT record -/
+  rcodeHi : Nat := 0
+  /-- the last additional record of the handler's response is a TSIG record (it is counted in
+  `extra` like any other record) -/
+  tsig : Bool := false
   deriving Repr
 
 /-- `maxDNSSize`. -/
@@ -129,15 +134,16 @@ def cutOver (size ol : Nat) (r : Resp) : Cut :=
     tc := r.tc || decide (a.2 < r.ans.length) || decide (n.2 < r.ns.length)
             || decide (e.2 < r.extra.length) }
 
-/-- `dns.Msg.Truncate(size)` on a response whose OPT record (if any) is `opt`. -/
-def msgTruncate (size0 : Nat) (r : Resp) (opt : Option Opt) : Cut :=
-  if r.unc + optLen? opt ≤ max size0 minMsgSize then
+/-- `dns.Msg.Truncate(size)` on a response whose OPT record (if any) is `opt`.  `exempt` is
+`Msg.IsTsig() != nil`: the library does not touch a message whose last record is a TSIG. -/
+def msgTruncate (exempt : Bool) (size0 : Nat) (r : Resp) (opt : Option Opt) : Cut :=
+  if exempt || decide (r.unc + optLen? opt ≤ max size0 minMsgSize) then
     { ka := r.ans.length, kn := r.ns.length, ke := r.extra.length, tc := r.tc }
   else cutOver (max size0 minMsgSize) (optLen? opt) r
 
 /-- AdGuard's `truncate`: a truncated message loses its answer section. -/
-def truncate (size : Nat) (r : Resp) (opt : Option Opt) : Cut :=
-  let c := msgTruncate size r opt
+def truncate (exempt : Bool) (size : Nat) (r : Resp) (opt : Option Opt) : Cut :=
+  let c := msgTruncate exempt size r opt
   if c.tc then { c with ka := 0 } else c
 
 def hasCode (c : Nat) (os : List EOpt) : Bool := os.any (·.code == c)
@@ -209,10 +215,16 @@ def padStep (t : Transport) (req o : Option Opt) (draw : Nat) : Option Opt :=
   | some ro, some o => some (if t.hasPadding then padAnswer ro o draw else o)
   | _, o => o
 
+/-- `Msg.IsTsig() != nil` at the moment `Truncate` runs: the handler's response ends in a TSIG
+record and `normalize` has not appended a synthesised OPT record after it. -/
+def tsigAtTruncate (req : Option Opt) (r : Resp) : Bool :=
+  r.tsig && !(req.isSome && r.opt.isNone)
+
 /-- `normalize(network, proto, req, resp, maxMsgSize)`. -/
 def normalizeG (legacy : Bool) (t : Transport) (cfgMax : Nat) (req : Option Opt) (r : Resp)
     (draw : Nat) : Norm :=
-  { cut := truncate (maxDNSSize t.isUdp (advertised req) (t.cap cfgMax)) r (baseOpt legacy req r),
+  { cut := truncate (tsigAtTruncate req r) (maxDNSSize t.isUdp (advertised req) (t.cap cfgMax)) r
+      (baseOpt legacy req r),
     opt := padStep t req (baseOpt legacy req r) draw }
 
 /-- The code as repaired by the `fix:` commit. -/
@@ -235,16 +247,117 @@ def finalLen (r : Resp) (c : Cut) (opt : Option Opt) : Nat :=
   if c.tc then r.q + sum (r.ns2.take c.kn) + sum (r.extra2.take c.ke) + optLen? opt
   else r.q + sum (r.ans.take c.ka) + sum (r.ns.take c.kn) + sum (r.extra.take c.ke) + optLen? opt
 
+/-- `Msg.Pack` overwrites the extended-rcode byte of the OPT record with `Msg.Rcode >> 4`. -/
+def packOpt (hi : Nat) : Option Opt → Option Opt
+  | none => none
+  | some o => some { o with extRcode := hi }
+
 /-- A whole write path: `normalize`, keep-alive on TCP/DoT, pack, length guard. -/
 def serveG (legacy : Bool) (t : Transport) (cfgMax idleMs : Nat) (req : Option Opt) (r : Resp)
     (draw slack : Nat) : Out :=
   let n := normalizeG legacy t cfgMax req r draw
-  let opt := if t.hasKeepAlive then addKeepAlive req n.opt idleMs else n.opt
+  let opt := packOpt r.rcodeHi (if t.hasKeepAlive then addKeepAlive req n.opt idleMs else n.opt)
   let len := finalLen r n.cut opt
   let wire := len - slack
   { cut := n.cut, opt := opt, len := len, wire := wire,
     emitted := !(t.guarded && decide (wire > maxMsgSize)) }
 
 def serve := serveG false
+
+/-! ## The server around the write path: which message is handed to the writer at all -/
+
+/-- The header facts of the incoming message `ServerBase.acceptMsg` looks at. -/
+structure QHdr where
+  response : Bool
+  opcode : Nat
+  nq : Nat
+  nans : Nat
+  nns : Nat
+  deriving DecidableEq, Repr
+
+inductive Accept | accept | reject | notImp | ignore
+  deriving DecidableEq, Repr
+
+/-- `ServerBase.acceptMsg`. -/
+def acceptMsg (h : QHdr) : Accept :=
+  if h.response then .ignore
+  else if h.opcode != 0 && h.opcode != 4 then .notImp
+  else if h.nq != 1 then .reject
+  else if h.nans > 1 then .reject
+  else if h.nns > 1 then .reject
+  else .accept
+
+/-- What the handler did with an accepted query. -/
+inductive Handler
+  /-- called `WriteMsg` once with this response and returned the writer's error -/
+  | wrote (r : Resp)
+  /-- returned `nil` without writing (e.g. a rate-limited query) -/
+  | silent
+  /-- returned an error without writing; `timeout` = `isNonCriticalNetError` -/
+  | failed (timeout : Bool)
+  deriving Repr
+
+/-- `genErrorResponse`: header + first question (`qe` bytes), nothing else. -/
+def errResp (qe : Nat) (opt : Option Opt) : Resp :=
+  { tc := false, q := qe, unc := qe, ans := [], ns := [], extra := [], ns2 := [], extra2 := [],
+    opt := opt }
+
+def codeEDE : Nat := 15
+
+/-- `addEDE(req, resp, NetworkError, "")`: `SetEdns0(client's size, client's DO)` and one
+extended-error option with an empty text (2 bytes), only for a query that carries OPT. -/
+def edeOpt : Option Opt → Option Opt
+  | none => none
+  | some ro => some { udpSize := ro.udpSize, extRcode := 0, version := 0, dobit := ro.dobit, z := 0,
+                      opts := [{ code := codeEDE, len := 2 }] }
+
+/-- `serveDNSMsgInternal`: the response handed to the transport's writer, if any. -/
+def serverResp (hdr : QHdr) (qe : Nat) (req : Option Opt) (h : Handler) : Option Resp :=
+  match acceptMsg hdr with
+  | .ignore => none
+  | .reject | .notImp => some (errResp qe none)
+  | .accept =>
+    match h with
+    | .wrote r => some r
+    | .silent => none
+    | .failed timeout => some (errResp qe (if timeout then edeOpt req else none))
+
+/-- The response came from the handler's own `WriteMsg` call, so a writer error travels back
+through the handler to `serveDNSMsgInternal`, which then writes a SERVFAIL. -/
+def handlerWrote (hdr : QHdr) (h : Handler) : Bool :=
+  match acceptMsg hdr, h with
+  | .accept, .wrote _ => true
+  | _, _ => false
+
+def emittedOnly (o : Out) : Option Out := if o.emitted then some o else none
+
+/-- The SERVFAIL the DNSCrypt handler of the pinned tree sent for a silent handler: not
+normalised at all. -/
+def rawServfail (qe : Nat) : Out :=
+  { cut := { ka := 0, kn := 0, ke := 0, tc := false }, opt := none, len := qe, wire := qe,
+    emitted := true }
+
+/-- The DNS message (if any) one query causes on the wire.  `draw`/`slack` belong to the first
+write, `draw2` to the SERVFAIL that TCP/DoT send when `packWithPrefix` refused the first one.
+Nothing written: plain UDP sends nothing, TCP/DoT close the connection, DoH answers HTTP 500;
+DoQ and DNSCrypt send a SERVFAIL (`legacy`: DNSCrypt skipped `normalize` for it). -/
+def respondG (legacy : Bool) (t : Transport) (cfgMax idleMs : Nat) (hdr : QHdr) (qe : Nat)
+    (req : Option Opt) (h : Handler) (draw slack draw2 : Nat) : Option Out :=
+  match serverResp hdr qe req h with
+  | some r =>
+    let o := serveG legacy t cfgMax idleMs req r draw slack
+    if o.emitted then some o
+    else if t.hasKeepAlive && handlerWrote hdr h then
+      emittedOnly (serveG legacy t cfgMax idleMs req (errResp qe none) draw2 0)
+    else none
+  | none =>
+    match t with
+    | .doq => emittedOnly (serveG legacy .doq cfgMax idleMs req (errResp qe none) draw 0)
+    | .dcUdp | .dcTcp =>
+      if legacy then some (rawServfail qe)
+      else some (serveG legacy t cfgMax idleMs req (errResp qe none) draw 0)
+    | _ => none
+
+def respond := respondG false
 
 end Agd.Normalize
